@@ -662,6 +662,14 @@ def run(project: Project, rep, tier: str):
         check_search(project, rep, max_n)   # report why the semantic rule could not follow it either
     check_order(rep, run)
     check_empty(rep, project, BN)
+    # BN-DTYPE: representation independence of the distance's own input handling — no float store into an array typed by a diagram,
+    # no cast of one diagram to the dtype of the other (rules/dtype_rule.py) — over the entry point and the helpers it calls
+    from . import dtype_rule as _dt
+    from .oneshot import reachable_functions as _reach
+    _fns = _reach(project, [BN])
+    if _fns:
+        _dt.run_on(project, rep, "BN-DTYPE", _fns)
+    rep.floor("BN-DTYPE", 1)
     for ev in run.events("shape-error"):
         if run.interp.clean_before(ev):
             rep.refuted("BN-TILE", fi, ev["node"], f"shape mismatch for some sizes: {ev['message']}")
